@@ -12,6 +12,8 @@ import (
 //	createue <imsi:text-hex> <ueNumber> <K:text-hex> <OPC:text-hex> <OP:text-hex>
 //	      → ok <Supi text-hex> <RanUeNgapId> <CipheringAlg> <IntegrityAlg> <K> <OPC> <OP> <AMF field>   (text-hex)
 //	uecap <cipheringAlg> <integrityAlg>   → ok <Iei> <Len> <Buffer hex>
+//	uesuci <imsi:text-hex> <mncLen> <ueNumber>   → ok <Buffer hex>: what RegisterUE sends for that UE,
+//	        EncodeSuci([]byte(strings.TrimPrefix(CreateUE(imsi, ueNumber, …).Supi, "imsi-")), mncLen)
 //	uepop <imsi:text-hex> <mncLen> <n> <K> <OPC> <OP>  → the population CreateUE(imsi, 0..n-1, K, OPC, OP):
 //	        ok <#distinct SUPIs> <#distinct RAN-UE-NGAP-IDs> <all SUPIs as long as "imsi-"+imsi: 0|1>
 //	           <all SUPIs start with "imsi-"+imsi[:3+mncLen]: 0|1> <every UE carries K/OPC/OP: 0|1>
@@ -27,6 +29,11 @@ func init() {
 		ue := tglib.NewRanUeContext("imsi-001010000000001", 1, uint8(aU64(a[0])), uint8(aU64(a[1])))
 		c := ue.GetUESecurityCapability()
 		return "ok " + u(uint64(c.Iei)) + " " + u(uint64(c.Len)) + " " + hx(c.Buffer)
+	})
+	registerOp("uesuci", func(a []string) string {
+		ue := stgutg.CreateUE(string(aHex(a[0])), int(aI64(a[2])), "k", "opc", "op")
+		m := stgutg.EncodeSuci([]byte(strings.TrimPrefix(ue.Supi, "imsi-")), int(aI64(a[1])))
+		return "ok " + hx(m.Buffer)
 	})
 	registerOp("uepop", func(a []string) string {
 		imsi := string(aHex(a[0]))
@@ -76,9 +83,9 @@ func ueDomain(e *emitter) {
 	e.op("uepop", tx("310410123456789"), "3", "1000", tx(k), tx(opc), tx(op))
 	// populations: sizes 1..10 000, MSIN anywhere up to "close to but not beyond exhaustion", both MNC lengths
 	sizes := []int{1, 2, 3, 10, 100, 999, 1000, 1001, 4096, 9999, 10000}
-	nPop := 30
-	if e.thorough() {
-		nPop = 1500
+	nPop := e.n / 10 // quick 200, thorough 6000 populations
+	if nPop < 30 {
+		nPop = 30
 	}
 	for j := 0; j < nPop; j++ {
 		mncLen := 2 + j%2
@@ -114,6 +121,27 @@ func ueDomain(e *emitter) {
 		}
 		e.op("uepop", tx(imsi), i(int64(mncLen)), i(int64(n)), hx(e.bytes(e.rng.Intn(33))), hx(e.bytes(e.rng.Intn(33))), hx(e.bytes(e.rng.Intn(33))))
 	}
+	// the SUCI each UE presents (link to C11): first, last and random members of a population
+	for j := 0; j < e.n/4+20; j++ {
+		mncLen := 2 + j%2
+		msinLen := 1 + e.rng.Intn(10)
+		imsi := digits(e, 3+mncLen) + padInt(e.rng.Int63n(pow10(msinLen)), msinLen)
+		if j%7 == 0 {
+			imsi = "00" + imsi[2:]
+		}
+		idx := int64(e.rng.Intn(10000))
+		switch j % 5 {
+		case 0:
+			idx = 0
+		case 1:
+			idx = 9999
+		}
+		e.op("uesuci", tx(imsi), i(int64(mncLen)), i(idx))
+	}
+	e.op("uesuci", tx("001010000000001"), "2", "1")
+	e.op("uesuci", tx("12345"), "2", "0")
+	e.op("uesuci", tx("1234"), "2", "7")
+	e.op("uesuci", tx("12a4567"), "3", "7")
 	// populations that do NOT fit (outside the property's domain: the model must still agree)
 	for j := 0; j < 6; j++ {
 		msinLen := 1 + e.rng.Intn(3)
